@@ -401,6 +401,185 @@ def translate_errors(out):
     return len(rows)
 
 
+# ----------------------------------------------------------------------------- rules from the code (AST)
+def _const(node, where):
+    import ast
+    if isinstance(node, ast.Constant) and isinstance(node.value, str):
+        return node.value
+    raise Abort("%s: expected a string literal, found %s" % (where, type(node).__name__))
+
+
+def _replace_chain(node, var, where):
+    """key.replace(a, b).replace(c, d) ... on the variable `var` -> [(a, b), (c, d)] in application order"""
+    import ast
+    pairs = []
+    while isinstance(node, ast.Call) and isinstance(node.func, ast.Attribute) and node.func.attr == "replace":
+        if len(node.args) != 2 or node.keywords:
+            raise Abort("%s: replace() with unexpected arguments" % where)
+        pairs.append((_const(node.args[0], where), _const(node.args[1], where)))
+        node = node.func.value
+    if not (isinstance(node, ast.Name) and node.id == var):
+        raise Abort("%s: replace chain does not start at %r" % (where, var))
+    return list(reversed(pairs))
+
+
+def translate_name_rules(out):
+    """The literal replace chains and the two regular expressions of camel_to_snake_case /
+    snake_to_camel_case, read from the source; any other statement shape aborts."""
+    import ast
+    src = open(os.path.join(REPO, "ocpp", "charge_point.py")).read()
+    tree = ast.parse(src)
+    funcs = {n.name: n for n in tree.body if isinstance(n, ast.FunctionDef)}
+    rules = {}
+    for fname in ("camel_to_snake_case", "snake_to_camel_case"):
+        if fname not in funcs:
+            raise Abort("ocpp/charge_point.py: %s not found" % fname)
+        fn = funcs[fname]
+        first_if = [n for n in fn.body if isinstance(n, ast.If)]
+        if not first_if:
+            raise Abort("%s: unexpected shape" % fname)
+        loops = [n for n in first_if[0].body if isinstance(n, ast.For)]
+        if len(loops) != 1:
+            raise Abort("%s: expected one loop over the dict items" % fname)
+        body = loops[0].body
+        repl, tail = [], []
+        for st in body:
+            if isinstance(st, ast.Assign) and len(st.targets) == 1 and isinstance(st.targets[0], ast.Name) \
+                    and st.targets[0].id == "key" and isinstance(st.value, ast.Call) \
+                    and isinstance(st.value.func, ast.Attribute) and st.value.func.attr == "replace" and not tail:
+                repl += _replace_chain(st.value, "key", fname)
+            else:
+                tail.append(ast.dump(st))
+        rules[fname] = (repl, tail)
+    want_c2s_tail = [
+        ast.dump(ast.parse('s1 = re.sub("(.)([A-Z][a-z]+)", r"\\1_\\2", key)').body[0]),
+        ast.dump(ast.parse('key = re.sub("([a-z0-9])([A-Z])(?=\\\\S)", r"\\1_\\2", s1).lower()').body[0]),
+        ast.dump(ast.parse('snake_case_dict[key] = camel_to_snake_case(value)').body[0]),
+    ]
+    want_s2c_tail = [
+        ast.dump(ast.parse('components = key.split("_")').body[0]),
+        ast.dump(ast.parse('key = components[0] + "".join(x[:1].upper() + x[1:] for x in components[1:])').body[0]),
+        ast.dump(ast.parse('camel_case_dict[key] = snake_to_camel_case(value)').body[0]),
+    ]
+    if rules["camel_to_snake_case"][1] != want_c2s_tail:
+        raise Abort("camel_to_snake_case: the statements after the replace chain are not the two re.sub calls the model implements")
+    if rules["snake_to_camel_case"][1] != want_s2c_tail:
+        raise Abort("snake_to_camel_case: the statements after the replace chain are not the split/capitalise the model implements")
+    lines = ["(* GENERATED by harness/translate.py from ocpp/charge_point.py (AST) -- do not edit *)",
+             "From Coq Require Import List String.", "Import ListNotations.", "Local Open Scope string_scope.", "",
+             "(* key.replace(a, b) steps of camel_to_snake_case, in order; then the two regular expressions *)",
+             "Definition c2s_replaces : list (string * string) := %s." % clist(
+                 ["(%s, %s)" % (cs(a), cs(b)) for a, b in rules["camel_to_snake_case"][0]]),
+             "(* key.replace(a, b) steps of snake_to_camel_case, in order; then split('_') and capitalise *)",
+             "Definition s2c_replaces : list (string * string) := %s." % clist(
+                 ["(%s, %s)" % (cs(a), cs(b)) for a, b in rules["snake_to_camel_case"][0]])]
+    with open(os.path.join(out, "NameRules.v"), "w") as fh:
+        fh.write("\n".join(lines) + "\n")
+    return len(rules["camel_to_snake_case"][0]), len(rules["snake_to_camel_case"][0])
+
+
+def translate_validate_rules(out):
+    """From ocpp/messages._validate_payload: which jsonschema keyword is reported as which OCPP error, which
+    error the decimal.InvalidOperation handler raises, and which (version, direction, action)s take the
+    decimal path.  Any other shape aborts."""
+    import ast
+    import ocpp.exceptions as ex
+    src = open(os.path.join(REPO, "ocpp", "messages.py")).read()
+    tree = ast.parse(src)
+    fn = [n for n in tree.body if isinstance(n, ast.FunctionDef) and n.name == "_validate_payload"]
+    if len(fn) != 1:
+        raise Abort("ocpp/messages.py: _validate_payload not found")
+    fn = fn[0]
+
+    def raised_class(stmts, where):
+        r = [s for s in stmts if isinstance(s, ast.Raise)]
+        if len(r) != 1 or not isinstance(r[0].exc, ast.Call) or not isinstance(r[0].exc.func, ast.Name):
+            raise Abort("%s: expected exactly one `raise SomeError(...)`" % where)
+        name = r[0].exc.func.id
+        cls = getattr(ex, name, None)
+        if cls is None or not isinstance(getattr(cls, "code", None), str):
+            raise Abort("%s: %s is not an OCPP error class" % (where, name))
+        return cls.code
+
+    tries = [n for n in fn.body if isinstance(n, ast.Try)]
+    if len(tries) != 2:
+        raise Abort("_validate_payload: expected two try blocks (validator selection, validation)")
+    # --- the mapping
+    mapping, else_code, invalid_op = [], None, None
+    for h in tries[1].handlers:
+        tname = ast.unparse(h.type) if h.type is not None else ""
+        if tname == "decimal.InvalidOperation":
+            invalid_op = raised_class(h.body, "except decimal.InvalidOperation")
+        elif tname == "SchemaValidationError":
+            node = h.body[0] if len(h.body) == 1 else None
+            while isinstance(node, ast.If):
+                t = node.test
+                ok = isinstance(t, ast.Compare) and len(t.ops) == 1 and isinstance(t.ops[0], ast.Eq) \
+                    and ast.unparse(t.left) == "e.validator" and len(t.comparators) == 1
+                if not ok:
+                    raise Abort("_validate_payload: unexpected condition %s" % ast.unparse(t))
+                mapping.append((_const(t.comparators[0], "e.validator == ..."), raised_class(node.body, ast.unparse(t))))
+                if len(node.orelse) == 1 and isinstance(node.orelse[0], ast.If):
+                    node = node.orelse[0]
+                else:
+                    else_code = raised_class(node.orelse, "else branch")
+                    node = None
+            if else_code is None:
+                raise Abort("_validate_payload: no else branch in the error mapping")
+        else:
+            raise Abort("_validate_payload: unexpected handler %r" % tname)
+    if invalid_op is None or not mapping:
+        raise Abort("_validate_payload: mapping or InvalidOperation handler missing")
+    # --- the decimal condition
+    ifs = [n for n in tries[0].body if isinstance(n, ast.If)]
+    if len(ifs) != 1:
+        raise Abort("_validate_payload: expected one `if` selecting the decimal path")
+    cond = ast.unparse(ifs[0].test)
+    want = ("ocpp_version == '1.6' and (type(message) == Call and message.action in ['SetChargingProfile', "
+            "'RemoteStartTransaction'] or (type(message) == CallResult and message.action == 'GetCompositeSchedule'))")
+    import re as _re
+    m = _re.fullmatch(r"ocpp_version == '1\.6' and \(type\(message\) == Call and message\.action in (\[[^\]]*\]) or "
+                      r"\(type\(message\) == CallResult and message\.action (?:== ('[^']*')|in (\[[^\]]*\]))\)\)", cond)
+    if not m:
+        raise Abort("_validate_payload: the condition selecting the decimal path has an unexpected shape: %s" % cond)
+    calls = ast.literal_eval(m.group(1))
+    results = [ast.literal_eval(m.group(2))] if m.group(2) else ast.literal_eval(m.group(3))
+    lines = ["(* GENERATED by harness/translate.py from ocpp/messages.py _validate_payload (AST) -- do not edit *)",
+             "From Coq Require Import List String.",
+             "Import ListNotations.", "Local Open Scope string_scope.", "",
+             "(* SchemaValidationError.validator (the failing keyword) -> code of the OCPP error raised *)",
+             "Definition keyword_codes : list (string * string) := %s." % clist(
+                 ["(%s, %s)" % (cs(k), cs(c)) for k, c in mapping]),
+             "Definition other_keyword_code : string := %s." % cs(else_code),
+             "Definition invalid_operation_code : string := %s." % cs(invalid_op),
+             "(* OCPP 1.6 actions validated with decimal.Decimal: as CALL, as CALLRESULT *)",
+             "Definition decimal_calls16 : list string := %s." % clist([cs(a) for a in calls]),
+             "Definition decimal_results16 : list string := %s." % clist([cs(a) for a in results])]
+    with open(os.path.join(out, "ValidateRules.v"), "w") as fh:
+        fh.write("\n".join(lines) + "\n")
+    return len(mapping)
+
+
+FALLBACK_NAME_RULES = """(* FALLBACK: the extraction from ocpp/charge_point.py failed; table of the pinned tree *)
+From Coq Require Import List String.
+Import ListNotations.
+Local Open Scope string_scope.
+Definition c2s_replaces : list (string * string) := [("ocppCSMSURL", "ocpp_csms_url"); ("V2X", "_v2x"); ("V2G", "_v2g")].
+Definition s2c_replaces : list (string * string) := [("soc", "SoC"); ("_v2x", "V2X"); ("ocpp_csms_url", "ocppCsmsUrl"); ("csms", "CSMS"); ("_url", "URL"); ("soc", "SoC"); ("_SoCket", "Socket"); ("_v2x", "V2X"); ("soc_limit_reached", "SOCLimitReached"); ("_v2x", "V2X"); ("_v2g", "V2G")].
+"""
+
+FALLBACK_VALIDATE_RULES = """(* FALLBACK: the extraction from ocpp/messages.py failed; tables of the pinned tree *)
+From Coq Require Import List String.
+Import ListNotations.
+Local Open Scope string_scope.
+Definition keyword_codes : list (string * string) := [("type", "TypeConstraintViolation"); ("additionalProperties", "FormatViolation"); ("required", "ProtocolError"); ("maxLength", "TypeConstraintViolation")].
+Definition other_keyword_code : string := "FormatViolation".
+Definition invalid_operation_code : string := "FormatViolation".
+Definition decimal_calls16 : list string := ["SetChargingProfile"; "RemoteStartTransaction"].
+Definition decimal_results16 : list string := ["GetCompositeSchedule"].
+"""
+
+
 def main():
     out = sys.argv[1]
     os.makedirs(out, exist_ok=True)
@@ -411,11 +590,28 @@ def main():
         e16 = translate_classes("16", "v16", out)
         e201 = translate_classes("201", "v201", out)
         ne = translate_errors(out)
+        # behaviour tables read from function bodies: if a body no longer has the shape the extraction
+        # understands, only the properties that rest on that table lose their tie (the pinned table is
+        # written instead and the failure is announced on stdout for harness/common.py)
+        try:
+            nr = translate_name_rules(out)
+        except Abort as e:
+            print("RULES-ABORTED names: %s" % e)
+            with open(os.path.join(out, "NameRules.v"), "w") as fh:
+                fh.write(FALLBACK_NAME_RULES)
+            nr = (-1, -1)
+        try:
+            nv = translate_validate_rules(out)
+        except Abort as e:
+            print("RULES-ABORTED validate: %s" % e)
+            with open(os.path.join(out, "ValidateRules.v"), "w") as fh:
+                fh.write(FALLBACK_VALIDATE_RULES)
+            nv = -1
     except Abort as e:
         sys.stderr.write("TRANSLATION-ABORTED: %s\n" % e)
         sys.exit(3)
-    print("translated schemas16=%d(defs %d) schemas201=%d(defs %d) enums=%d+%d errors=%d" % (
-        n16[0], n16[1], n201[0], n201[1], e16, e201, ne))
+    print("translated schemas16=%d(defs %d) schemas201=%d(defs %d) enums=%d+%d errors=%d name-replaces=%d+%d keyword-codes=%d" % (
+        n16[0], n16[1], n201[0], n201[1], e16, e201, ne, nr[0], nr[1], nv))
 
 
 if __name__ == "__main__":
